@@ -327,8 +327,14 @@ def run(chk) -> None:
                 f"{'not a legal set name' if bset not in LEGAL_BRACKET_SETS else 'empty in this dialect'}",
                 detail=f"dialect={label} delimited bracket set={bset}", construct=dconstruct, loc=f"{rel}:0",
             )
-    chk.floor("R29b.bracketed_nodes", 1000)
-    chk.floor("R29b.bracket_set_refs", 100)
+    # Floors are anchors for "the walk saw the grammar"; a dialect that does not load or has
+    # no root is already reported above as a violation and must not turn into exit 2.
+    n_walked = sum(1 for lab in table if g[lab].root is not None)
+    chk.count("R29b.dialects_walked", n_walked)
+    all_walked = n_walked == len(table)
+    if all_walked:
+        chk.floor("R29b.bracketed_nodes", 1000)
+        chk.floor("R29b.bracket_set_refs", 100)
 
     # ---- R29a -----------------------------------------------------------------------
     counts: Dict[str, int] = {}
@@ -364,8 +370,11 @@ def run(chk) -> None:
                 t = d.nodes[d.library[n["ref"]]]
                 chk.sample({"rule": "R29a", "dialect": label, "ref": n["ref"], "resolves_to": t["kind"], "chain": d.chain(i)[-4:]})
                 k += 1
-    chk.floor("R29a.references", 20000)
-    chk.floor("R29a.reachable_nodes", 50000)
+    if all_walked:
+        chk.floor("R29a.references", 20000)
+        chk.floor("R29a.reachable_nodes", 50000)
+    elif n_walked:
+        chk.floor("R29a.references", 500 * n_walked)
     chk.exhaustive = True
     chk.extra["unresolved_references"] = len(unresolved)
     chk._c29_unresolved = unresolved  # for the findings dump
